@@ -113,6 +113,7 @@ type LeaseInfo struct {
 	HeldInFlight     bool
 	Samples          int
 	Retried          int
+	Overloaded       bool // a time-bound verdict was dropped because the machine was found overloaded
 }
 
 type exactViolation struct{ *vstat.Violation }
@@ -121,19 +122,45 @@ type exactViolation struct{ *vstat.Violation }
 // scenario with the lease doubled (twice) before it is reported. Lower-bound ("too early") verdicts are
 // exact and are never retried.
 func RunLease(s LeaseScenario) (info LeaseInfo, v *vstat.Violation) {
-	for attempt := 0; attempt < 3; attempt++ {
+	// lease periods of the confirmation runs: 4x, then at least 2 s
+	leases := []int{s.LeaseMs, max(4*s.LeaseMs, 1000), max(8*s.LeaseMs, 2000)}
+	for attempt, ms := range leases {
 		ss := s
-		ss.LeaseMs = s.LeaseMs << attempt
-		var exact bool
-		info2, v2, ex := runLease(ss)
-		exact = ex
+		ss.LeaseMs = ms
+		info2, v2, exact := runLease(ss)
 		info2.Retried = attempt
 		info, v = info2, v2
 		if v == nil || exact {
 			return
 		}
 	}
+	// a verdict that rests on a time bound is only as good as the machine's scheduling: measure it now
+	if noise := schedulingNoise(); noise > time.Duration(leases[len(leases)-1])*time.Millisecond/16 {
+		info.Overloaded = true // the caller notes it as inconclusive
+		v = nil
+	}
 	return
+}
+
+// schedulingNoise: how late sleeping goroutines of this process wake up at the moment (worst of 4 x 25 sleeps of 4 ms).
+func schedulingNoise() time.Duration {
+	var worst atomic.Int64
+	var wg sync.WaitGroup
+	for g := 0; g < 4; g++ {
+		wg.Add(1)
+		go func() {
+			defer wg.Done()
+			for i := 0; i < 25; i++ {
+				t := time.Now()
+				time.Sleep(4 * time.Millisecond)
+				if over := int64(time.Since(t) - 4*time.Millisecond); over > worst.Load() {
+					worst.Store(over)
+				}
+			}
+		}()
+	}
+	wg.Wait()
+	return time.Duration(worst.Load())
 }
 
 func runLease(s LeaseScenario) (info LeaseInfo, v *vstat.Violation, exact bool) {
